@@ -102,6 +102,7 @@ package oras
 //@ import context "context"
 //@ import registry "oras.land/oras-go/v2/registry"
 //@ import syncutil "oras.land/oras-go/v2/internal/syncutil"
+//@ import regexp "regexp"
 //@ import status "oras.land/oras-go/v2/internal/status"
 //@ import cas "oras.land/oras-go/v2/internal/cas"
 //@ import sync "sync"
@@ -281,6 +282,7 @@ package oras
 //@ // ---------------------------------------------------------------- extended copy (C03)
 //@ func fetchArtifactType
 //@   requires [wf] src != nil
+//@   modifies alloc, ghost.trips, ghost.consumedBody, ghost.delivered, ghost.atEOF, ghost.closedRC, ghost.present, ghost.readerOver
 //@   ensures@2 [C03:artifact-manifest-type] result1 == nil ==> result0 == manifest.ArtifactType
 //@   ensures@4 [C03:artifactType-else-config] result1 == nil ==> result0 == (manifest.ArtifactType != "" ? manifest.ArtifactType : manifest.Config.MediaType)
 //@   ensures@5 [C03:artifactType-else-config] result1 == nil ==> result0 == (manifest.ArtifactType != "" ? manifest.ArtifactType : manifest.Config.MediaType)
@@ -288,6 +290,7 @@ package oras
 //@
 //@ func fetchAnnotations
 //@   requires [wf] src != nil
+//@   modifies alloc, ghost.trips, ghost.consumedBody, ghost.delivered, ghost.atEOF, ghost.closedRC, ghost.present, ghost.readerOver, new map[string]string
 //@   ensures [C03:nonnil] result1 == nil ==> result0 != nil
 //@
 //@ ghost local ecTagged bool
@@ -343,6 +346,72 @@ package oras
 //@   ensures [C03:upward-closed] result1 == nil && unlimited ==> (forall v, p descriptor.Descriptor :: v in frVisited && isPredOf(p, v) ==> p in frVisited)
 //@   ensures [C03:every-maximal-node-is-a-root] result1 == nil && unlimited ==> (forall v descriptor.Descriptor :: v in frVisited && (forall p descriptor.Descriptor :: !isPredOf(p, v)) ==> (exists i int :: 0 <= i && i < len(result0) && K(result0[i]) == v))
 //@   ensures [C03:roots-are-reached-nodes] result1 == nil ==> (forall i int :: 0 <= i && i < len(result0) ==> K(result0[i]) in frVisited)
+//@
+//@ // ---- predecessor filters: a predecessor is followed exactly when its effective
+//@ // artifact type (declared on the descriptor, else fetched from the manifest) matches
+//@ ghost local fatEff(i int) string
+//@ ghost local fatFetched(i int) string
+//@ ghost local fatSrc(j int) int
+//@ ghost local fatPos(i int) int
+//@ pure fetchableAT(mt string) bool = mt == "application/vnd.oci.artifact.manifest.v1+json" || mt == "application/vnd.oci.image.manifest.v1+json"
+//@ func (*ExtendedCopyGraphOptions).FilterArtifactType$2
+//@   requires [wf] src != nil && regex != nil
+//@   call fetchArtifactType requires [C03:fetch-only-when-type-missing] args.desc == predecessors[$i] && predecessors[$i].ArtifactType == "" && fetchableAT(predecessors[$i].MediaType) && args.src == src
+//@   call fetchArtifactType set fatFetched($i) = result0
+//@   loop 0 invariant [objects] regex != nil && regex == old(regex) && $i <= len(predecessors) && (kept == nil || !sameArray(kept, predecessors))
+//@   loop 0 invariant [C03:kept-satisfy-filter] forall j int :: 0 <= j && j < len(kept) ==> 0 <= fatSrc(j) && fatSrc(j) < $i && reMatch(regex, fatEff(fatSrc(j))) && kept[j].ArtifactType == fatEff(fatSrc(j)) && K(kept[j]) == K(predecessors[fatSrc(j)])
+//@   loop 0 invariant [C03:matching-are-kept] forall i int :: 0 <= i && i < $i && reMatch(regex, fatEff(i)) ==> 0 <= fatPos(i) && fatPos(i) < len(kept) && fatSrc(fatPos(i)) == i
+//@   loop 0 invariant [C03:effective-type] forall i int :: 0 <= i && i < $i ==> fatEff(i) == (predecessors[i].ArtifactType != "" ? predecessors[i].ArtifactType : (fetchableAT(predecessors[i].MediaType) ? fatFetched(i) : ""))
+//@   loop 0 backedge set fatEff($i) = p.ArtifactType
+//@   loop 0 backedge set fatSrc(len(kept)) = $i
+//@   loop 0 backedge set fatPos($i) = len(kept)
+//@   ensures@4 [C03:followed-exactly-when-type-matches] (forall j int :: 0 <= j && j < len(result0) ==> 0 <= fatSrc(j) && fatSrc(j) < len(predecessors) && reMatch(regex, fatEff(fatSrc(j))) && result0[j].ArtifactType == fatEff(fatSrc(j)) && K(result0[j]) == K(predecessors[fatSrc(j)])) && (forall i int :: 0 <= i && i < len(predecessors) && reMatch(regex, fatEff(i)) ==> 0 <= fatPos(i) && fatPos(i) < len(result0) && fatSrc(fatPos(i)) == i) && (forall i int :: 0 <= i && i < len(predecessors) ==> fatEff(i) == (predecessors[i].ArtifactType != "" ? predecessors[i].ArtifactType : (fetchableAT(predecessors[i].MediaType) ? fatFetched(i) : "")))
+//@
+//@ ghost local fanEff(i int) map[string]string
+//@ ghost local fanFetched(i int) map[string]string
+//@ ghost local fanSrc(j int) int
+//@ ghost local fanPos(i int) int
+//@ pure isManifestMT(mt string) bool = mt == "application/vnd.docker.distribution.manifest.v2+json" || mt == "application/vnd.oci.image.manifest.v1+json" || mt == "application/vnd.docker.distribution.manifest.list.v2+json" || mt == "application/vnd.oci.image.index.v1+json" || mt == "application/vnd.oci.artifact.manifest.v1+json"
+//@ pure annOK(m map[string]string, key string, re *regexp.Regexp) bool = key in m && (re == nil || reMatch(re, m[key]))
+//@ func (*ExtendedCopyGraphOptions).FilterAnnotation$2
+//@   requires [wf] src != nil
+//@   call fetchAnnotations requires [C03:fetch-only-when-annotations-missing] args.desc == predecessors[$i] && predecessors[$i].Annotations == nil && isManifestMT(predecessors[$i].MediaType) && args.src == src
+//@   call fetchAnnotations set fanFetched($i) = result0
+//@   loop 0 invariant [objects] $i <= len(predecessors) && (kept == nil || !sameArray(kept, predecessors))
+//@   loop 0 invariant [C03:kept-satisfy-filter] forall j int :: 0 <= j && j < len(kept) ==> 0 <= fanSrc(j) && fanSrc(j) < $i && annOK(fanEff(fanSrc(j)), key, regex) && kept[j].Annotations == fanEff(fanSrc(j)) && K(kept[j]) == K(predecessors[fanSrc(j)])
+//@   loop 0 invariant [C03:matching-are-kept] forall i int :: 0 <= i && i < $i && annOK(fanEff(i), key, regex) ==> 0 <= fanPos(i) && fanPos(i) < len(kept) && fanSrc(fanPos(i)) == i
+//@   loop 0 invariant [C03:effective-annotations] forall i int :: 0 <= i && i < $i ==> fanEff(i) == (predecessors[i].Annotations != nil ? predecessors[i].Annotations : (isManifestMT(predecessors[i].MediaType) ? fanFetched(i) : nil))
+//@   loop 0 invariant [maps-stay] forall i int :: 0 <= i && i < $i ==> fanEff(i) == nil || alive(fanEff(i))
+//@   loop 0 backedge set fanEff($i) = p.Annotations
+//@   loop 0 backedge set fanSrc(len(kept)) = $i
+//@   loop 0 backedge set fanPos($i) = len(kept)
+//@   ensures@4 [C03:followed-exactly-when-annotation-matches] (forall j int :: 0 <= j && j < len(result0) ==> 0 <= fanSrc(j) && fanSrc(j) < len(predecessors) && annOK(fanEff(fanSrc(j)), key, regex) && result0[j].Annotations == fanEff(fanSrc(j)) && K(result0[j]) == K(predecessors[fanSrc(j)])) && (forall i int :: 0 <= i && i < len(predecessors) && annOK(fanEff(i), key, regex) ==> 0 <= fanPos(i) && fanPos(i) < len(result0) && fanSrc(fanPos(i)) == i) && (forall i int :: 0 <= i && i < len(predecessors) ==> fanEff(i) == (predecessors[i].Annotations != nil ? predecessors[i].Annotations : (isManifestMT(predecessors[i].MediaType) ? fanFetched(i) : nil)))
+//@
+//@ // page callbacks handed to ReferrerLister.Referrers: every referrer of the page that
+//@ // passes the filter is appended, nothing else is, earlier results stay
+//@ ghost local pgSrc(j int) int
+//@ ghost local pgPos(i int) int
+//@ func (*ExtendedCopyGraphOptions).FilterArtifactType$2$1
+//@   requires [wf:result-list-is-private] predecessors == nil || !sameArray(predecessors, referrers)
+//@   loop 0 invariant [objects] $i <= len(referrers) && (predecessors == nil || !sameArray(predecessors, referrers))
+//@   loop 0 invariant [C03:earlier-pages-stay] len(predecessors) >= old(len(predecessors)) && (forall j int :: 0 <= j && j < old(len(predecessors)) ==> predecessors[j] == old(predecessors[j]))
+//@   loop 0 invariant [C03:page-appended-match] forall j int :: old(len(predecessors)) <= j && j < len(predecessors) ==> 0 <= pgSrc(j) && pgSrc(j) < $i && K(predecessors[j]) == K(referrers[pgSrc(j)]) && predecessors[j].ArtifactType == referrers[pgSrc(j)].ArtifactType && reMatch(regex, referrers[pgSrc(j)].ArtifactType)
+//@   loop 0 invariant [C03:page-matching-appended] forall i int :: 0 <= i && i < $i && reMatch(regex, referrers[i].ArtifactType) ==> old(len(predecessors)) <= pgPos(i) && pgPos(i) < len(predecessors) && pgSrc(pgPos(i)) == i
+//@   loop 0 backedge set pgSrc(len(predecessors) - 1) = (reMatch(regex, referrers[$i].ArtifactType) ? $i : pgSrc(len(predecessors) - 1))
+//@   loop 0 backedge set pgPos($i) = len(predecessors) - 1
+//@   ensures [C03:page-never-fails] result == nil
+//@   ensures [C03:page-filtered-exactly] (forall j int :: old(len(predecessors)) <= j && j < len(predecessors) ==> 0 <= pgSrc(j) && pgSrc(j) < len(referrers) && K(predecessors[j]) == K(referrers[pgSrc(j)]) && predecessors[j].ArtifactType == referrers[pgSrc(j)].ArtifactType && reMatch(regex, referrers[pgSrc(j)].ArtifactType)) && (forall i int :: 0 <= i && i < len(referrers) && reMatch(regex, referrers[i].ArtifactType) ==> old(len(predecessors)) <= pgPos(i) && pgPos(i) < len(predecessors) && pgSrc(pgPos(i)) == i) && (forall j int :: 0 <= j && j < old(len(predecessors)) ==> predecessors[j] == old(predecessors[j]))
+//@
+//@ func (*ExtendedCopyGraphOptions).FilterAnnotation$2$1
+//@   requires [wf:result-list-is-private] predecessors == nil || !sameArray(predecessors, referrers)
+//@   loop 0 invariant [objects] $i <= len(referrers) && (predecessors == nil || !sameArray(predecessors, referrers))
+//@   loop 0 invariant [C03:earlier-pages-stay] len(predecessors) >= old(len(predecessors)) && (forall j int :: 0 <= j && j < old(len(predecessors)) ==> predecessors[j] == old(predecessors[j]))
+//@   loop 0 invariant [C03:page-appended-match] forall j int :: old(len(predecessors)) <= j && j < len(predecessors) ==> 0 <= pgSrc(j) && pgSrc(j) < $i && K(predecessors[j]) == K(referrers[pgSrc(j)]) && predecessors[j].Annotations == referrers[pgSrc(j)].Annotations && annOK(referrers[pgSrc(j)].Annotations, key, regex)
+//@   loop 0 invariant [C03:page-matching-appended] forall i int :: 0 <= i && i < $i && annOK(referrers[i].Annotations, key, regex) ==> old(len(predecessors)) <= pgPos(i) && pgPos(i) < len(predecessors) && pgSrc(pgPos(i)) == i
+//@   loop 0 backedge set pgSrc(len(predecessors) - 1) = (annOK(referrers[$i].Annotations, key, regex) ? $i : pgSrc(len(predecessors) - 1))
+//@   loop 0 backedge set pgPos($i) = len(predecessors) - 1
+//@   ensures [C03:page-never-fails] result == nil
+//@   ensures [C03:page-filtered-exactly] (forall j int :: old(len(predecessors)) <= j && j < len(predecessors) ==> 0 <= pgSrc(j) && pgSrc(j) < len(referrers) && K(predecessors[j]) == K(referrers[pgSrc(j)]) && predecessors[j].Annotations == referrers[pgSrc(j)].Annotations && annOK(referrers[pgSrc(j)].Annotations, key, regex)) && (forall i int :: 0 <= i && i < len(referrers) && annOK(referrers[i].Annotations, key, regex) ==> old(len(predecessors)) <= pgPos(i) && pgPos(i) < len(predecessors) && pgSrc(pgPos(i)) == i) && (forall j int :: 0 <= j && j < old(len(predecessors)) ==> predecessors[j] == old(predecessors[j]))
 //@
 //@ func copyGraph
 //@   trusted
